@@ -27,10 +27,14 @@ def main():
             checks = a.split("=", 1)[1].split(",")
     out = os.path.join(ROOT, "seeded", name)
     os.makedirs(out, exist_ok=True)
-    shutil.copy(patch, os.path.join(out, "patch.diff"))
-    if demo != "-":
+    if os.path.abspath(patch) != os.path.join(out, "patch.diff"):
+        shutil.copy(patch, os.path.join(out, "patch.diff"))
+    if demo != "-" and os.path.abspath(demo) != os.path.join(out, "demo.py"):
         shutil.copy(demo, os.path.join(out, "demo.py"))
     meta = dict(name=name, property=prop, ran=[])
+    if os.path.exists(os.path.join(out, "meta.json")):
+        old = json.load(open(os.path.join(out, "meta.json")))
+        meta.update({k: old[k] for k in ("summary", "needs", "why_tests_pass", "origin") if old.get(k)})
     if src_meta and os.path.exists(src_meta):
         sm = json.load(open(src_meta))
         meta.update(summary=sm.get("summary"), needs=sm.get("needs"), why_tests_pass=sm.get("why_tests_pass"))
@@ -55,23 +59,19 @@ def main():
                 r = subprocess.run(["/venv/bin/python", os.path.join(out, "demo.py")], capture_output=True, text=True, env=env, timeout=300, cwd=wt)
                 meta["demo_fails_with_change"] = r.returncode != 0
                 meta["ran"].append(f"SRC={wt}/src python demo.py (patched) -> exit {r.returncode}")
-    finally:
-        sh(f"git -C /repo worktree remove --force {wt}")
-    # ---- our checks against the change
-    if meta.get("patch_applies"):
-        assert sh("git -C /repo status --porcelain --untracked-files=no").stdout.strip() == "", "/repo not clean"
-        meta["checks"] = {}
-        try:
-            r = sh(f"git -C /repo apply {os.path.join(out, 'patch.diff')}")
-            assert r.returncode == 0, r.stderr
+        # ---- our checks against the change: the scratch worktree (patched) stands for /repo; /repo itself is not touched
+        if meta.get("patch_applies"):
+            meta["checks"] = {}
             for c in checks:
                 t0 = time.time()
-                r = sh(f"cd {ROOT} && timeout 1500 ./check {c} --tier quick", env=dict(os.environ, VERIF_SHRINK_S="20"))
+                r = sh(f"cd {ROOT} && timeout 1500 ./check {c} --tier quick", env=dict(os.environ, VERIF_SHRINK_S="20", VERIF_REPO_SRC=f"{wt}/src",
+                                                                                 VERIF_EVIDENCE_DIR=f"/tmp/sc/evidence-{name}"))
                 lines = [l for l in r.stdout.splitlines() if l.startswith("VIOLATION") or l.startswith("  class=") or l.startswith("HARNESS-ERROR")]
-                meta["checks"][c] = dict(exit=r.returncode, detected=r.returncode == 1, wall_s=round(time.time() - t0, 1), lines=lines[:6], summary=r.stdout.strip().splitlines()[-1:] )
-                meta["ran"].append(f"git -C /repo apply patch.diff; ./check {c} --tier quick -> exit {r.returncode}")
-        finally:
-            sh("git -C /repo checkout -- .")
+                meta["checks"][c] = dict(exit=r.returncode, detected=r.returncode == 1, wall_s=round(time.time() - t0, 1), lines=lines[:6], summary=r.stdout.strip().splitlines()[-1:])
+                meta["ran"].append(f"scratch worktree of /repo HEAD + patch.diff; VERIF_REPO_SRC=<worktree>/src ./check {c} --tier quick -> exit {r.returncode}")
+    finally:
+        sh(f"git -C /repo worktree remove --force {wt}")
+        sh(f"rm -rf /tmp/sc/evidence-{name}")
     json.dump(meta, open(os.path.join(out, "meta.json"), "w"), indent=1)
     print(json.dumps({k: meta.get(k) for k in ("name", "property", "patch_applies", "tests_pass_with_change", "demo_passes_without_change", "demo_fails_with_change")}))
     for c, v in (meta.get("checks") or {}).items():
